@@ -1,5 +1,6 @@
 import SFV.Driver.Json
 import SFV.Model.Param
+import SFV.Model.ParamDecomp
 /-! Driver handlers of the K5 model (ops `param.*`).  Expressions travel as JSON trees:
 `{"n":[p,q]}`, `{"f":name}`, `{"m":mode}`, `{"add":[a,b]}`, `{"mul":[a,b]}`, `{"neg":a}`,
 `{"pow":[a,b]}`, `{"fn":name,"a":[x]}` / `{"fn":name,"a":[x,y]}`.  Values are closed terms. -/
@@ -47,6 +48,9 @@ def asParam (j : Json) : R Param := do
   if let .ok v := j.getObjVal? "arr" then
     let a ← v.getArr?
     return .arr (← a.toList.mapM asScalar)
+  if let .ok v := j.getObjVal? "arr2" then
+    let a ← v.getArr?
+    return .arr2 (← a.toList.mapM fun row => do (← row.getArr?).toList.mapM asScalar)
   throw "bad param"
 
 def scalarJson : Scalar → Json
@@ -56,6 +60,30 @@ def scalarJson : Scalar → Json
 def paramJson : Param → Json
   | .one s => Json.mkObj [("one", scalarJson s)]
   | .arr xs => Json.mkObj [("arr", jarr (xs.map scalarJson))]
+  | .arr2 xss => Json.mkObj [("arr2", jarr (xss.map fun xs => jarr (xs.map scalarJson)))]
+
+/-- a value: a rational `[p,q]` or a closed term (e.g. a complex number `re + im * I(1)`) -/
+def asVal (j : Json) : R Expr :=
+  match asRat j with
+  | .ok q => pure (.num q)
+  | .error _ => asExpr j
+
+def asStrVals (j : Json) : R (List (String × Expr)) := do
+  let a ← j.getArr?
+  a.toList.mapM fun x => do
+    match (← x.getArr?).toList with
+    | [k, v] => pure ((← k.getStr?), (← asVal v))
+    | _ => throw "table entry"
+
+def asNatVals (j : Json) : R (List (Nat × Expr)) := do
+  let a ← j.getArr?
+  a.toList.mapM fun x => do
+    match (← x.getArr?).toList with
+    | [k, v] => pure ((← k.getNat?), (← asVal v))
+    | _ => throw "table entry"
+
+def mkEnvV (fr : List (String × Expr)) (ms : List (Nat × Expr)) : Env Expr :=
+  ⟨fun n => (fr.find? (·.1 == n)).map (·.2), fun m => (ms.find? (·.1 == m)).map (·.2)⟩
 
 /-- `[[key, [p,q]], …]` as a finite map to rationals -/
 def asStrTab (j : Json) : R (List (String × Rat)) := do
@@ -92,6 +120,7 @@ def errStr : PErr → String
 def pvalJson : PVal Expr → Json
   | .one v => Json.mkObj [("one", exprJson v)]
   | .arr vs => Json.mkObj [("arr", jarr (vs.map exprJson))]
+  | .arr2 vss => Json.mkObj [("arr2", jarr (vss.map fun vs => jarr (vs.map exprJson)))]
 
 def resJson (r : Except PErr (PVal Expr)) : Json :=
   match r with
@@ -155,9 +184,14 @@ def handler (op : String) (j : Json) : Option (R Json) :=
   match op with
   | "param.info" => some do
     let p ← asParam (← j.getObjVal? "p")
-    let fr ← tabD j "free" asStrTab []
-    let ms ← tabD j "meas" asNatTab []
-    pure <| Json.mkObj [("eval", resJson (p.eval (mkEnv fr ms))),
+    let fr ← tabD j "free" asStrVals []
+    let ms ← tabD j "meas" asNatVals []
+    let env := mkEnvV fr ms
+    -- "dtype": the atoms are cast (closed term `f(v)`, folded by the harness) before evaluation
+    let res := match getStr j "dtype" with
+      | .ok f => p.evalCast (Expr.fn1 f) env
+      | .error _ => p.eval env
+    pure <| Json.mkObj [("eval", resJson res),
       ("deps", natList (p.deps.foldr insertSorted [])), ("sym", Json.bool p.isSymbolic)]
   | "param.subst" => some do
     let p ← asParam (← j.getObjVal? "p")
@@ -196,6 +230,25 @@ def handler (op : String) (j : Json) : Option (R Json) :=
       ("err", match o.fin with | .ok _ => Json.null | .error e => Json.str (errStr e)),
       ("regs", match o.fin with | .ok r => jarr (q.map fun m => match r m with | some v => exprJson v | none => Json.null) | .error _ => Json.null),
       ("last", jarr (q.map last))]
+  | "param.convert" => some do
+    let e ← asExpr (← j.getObjVal? "e")
+    pure <| match convert e with
+      | some e' => exprJson e'
+      | none => Json.null
+  | "param.session" => some do
+    let fr ← tabD j "free" asStrTab []
+    let evs ← (← getArr j "events").mapM fun ev => do
+      match ev.getObjVal? "run" with
+      | .ok segs => do
+        let segs ← (← segs.getArr?).toList.mapM fun s => do
+          let own ← tabD s "own" asNatVals []
+          let cs ← (← getArr s "cmds").mapM asCmd
+          pure ((fun m => (own.find? (·.1 == m)).map (·.2) : Regs Expr), cs)
+        pure (Ev.run segs)
+      | .error _ => pure Ev.reset
+    let outs := runEvents (fun n => (lookupS fr n).map Expr.num) {} evs
+    pure <| jarr (outs.map fun o => Json.mkObj [("trace", jarr (o.1.map exprJson)),
+      ("err", match o.2 with | none => Json.null | some e => Json.str (errStr e))])
   | "param.free" => some do
     let steps ← getArr j "steps"
     pure <| jarr (← runFreeScript steps)
